@@ -154,8 +154,9 @@ Definition finish (r : outcome + ending) (now : Z) : list tr :=
   | inl _ => []          (* timeout, peer error: end silently *)
   end.
 
-Definition transfer (c : cfg) (oack : list (list N * list N)) (blocks : list (list N)) (evs : list event)
-  : list tr :=
+(* the whole transfer: how it ended and the trace *)
+Definition transfer_r (c : cfg) (oack : list (list N * list N)) (blocks : list (list N)) (evs : list event)
+  : (outcome + ending) * list tr :=
   let '(r, now, l) :=
     match oack with
     | [] => let '(r, n, _, l) := send_blocks c 0%N blocks 0 evs in (r, n, l)
@@ -165,4 +166,7 @@ Definition transfer (c : cfg) (oack : list (list N * list N)) (blocks : list (li
            | _ => (inl o, n1, l1)
            end
     end in
-  l ++ finish r now ++ [TCloseFile; TCloseSock].
+  (r, l ++ finish r now ++ [TCloseFile; TCloseSock]).
+
+Definition transfer (c : cfg) (oack : list (list N * list N)) (blocks : list (list N)) (evs : list event)
+  : list tr := snd (transfer_r c oack blocks evs).
